@@ -74,6 +74,9 @@ func genBytes(rng *rand.Rand, maxLen int) []byte {
 			b = append(b, byte(0x80+rng.Intn(0x80)))
 		case 10:
 			b = append(b, '_')
+		case 11:
+			// the edges of the three word-character ranges and their outer neighbours
+			b = append(b, "azAZ09`{@[/:"[rng.Intn(12)])
 		default:
 			b = append(b, byte('a'+rng.Intn(2)))
 		}
